@@ -240,6 +240,11 @@ def exec_layout(case):
     if not out.failures and case["layout"][0] not in ("expand", "overlap"):
         # the SAME tensor object after an in-place update: the result is that of its current values
         upd = cut(lambda: x.mul_(0.37 if case["seed"] % 2 else -1.9))
+        if case["seed"] % 3 != 0:
+            # ... and the same SCALE object updated in place (a calibrated buffer after load_state_dict): its current values count
+            f = 2.5 if case["seed"] % 3 == 1 else 0.4
+            if bool(torch.isfinite(scale * f).all()) and bool((scale * f > 0).all()):
+                scale.mul_(f)
         if not isinstance(upd, Raised):
             q3 = cut(SymmetricQuantizer.apply, x, qtype, axis, scale)
             if isinstance(q3, Raised):
